@@ -163,6 +163,16 @@ impl Stats {
 
 thread_local! {
     static LAST_PANIC: RefCell<Option<(String, String)>> = RefCell::new(None);
+    static CURRENT_CALL: std::cell::Cell<&'static str> = std::cell::Cell::new("");
+}
+
+/// Name the library function about to be called (used in panic reports).
+pub fn mark(name: &'static str) {
+    CURRENT_CALL.with(|c| c.set(name));
+}
+
+pub fn current_call() -> &'static str {
+    CURRENT_CALL.with(|c| c.get())
 }
 
 pub fn install_panic_hook() {
@@ -230,6 +240,7 @@ impl Worker {
             let _ = f.flush();
         }
         let mut obs = Obs::default();
+        mark("");
         obs.want_sample = self.stats.samples.len() < 3;
         let check = self.prop.check;
         let res = catch_unwind(AssertUnwindSafe(|| check(case, &mut obs)));
@@ -245,7 +256,8 @@ impl Worker {
                     }
                     Verdict::Inconclusive("harness panic".to_string())
                 } else if self.prop.panic_is_violation {
-                    Verdict::Violated(format!("library panicked: {} at {}", msg, loc))
+                    let call = current_call();
+                    Verdict::Violated(format!("library panicked{}: {} at {}", if call.is_empty() { String::new() } else { format!(" in {}", call) }, msg, loc))
                 } else {
                     Verdict::Inconclusive(format!("callee panicked at {}", loc))
                 }
@@ -425,6 +437,7 @@ pub fn result_json(prop: &Prop, cfg: &RunCfg, stats: &Stats, wall: f64) -> J {
         }
     }
     j.put("required_missing", J::Arr(missing));
+    j.put("required", J::Arr(prop.required.iter().map(|r| J::s(r)).collect()));
     j.put("rule", J::s(prop.rule));
     j.put("wall_s", J::Num(wall));
     j
